@@ -5,6 +5,8 @@ from .core import ast as A
 from . import astpanic
 
 FILE = "distributed-walrus/src/client.rs"
+CTRL = "distributed-walrus/src/controller/mod.rs"
+INTERNAL = "distributed-walrus/src/controller/internal.rs"
 
 RULES = {
     "C24.1": "body consumed or connection closed (ASTPATH over one iteration of handle_connection's frame loop): on every path from the read of the 4-byte length to the loop back-edge, "
@@ -13,11 +15,12 @@ RULES = {
     "C24.2": "one response per frame: every back-edge path contains exactly one send_response(..).await",
     "C24.3": "payload pass-through: the command line is split with splitn(3, ' ') so that the payload (third item) keeps inner spaces; PUT stores payload.as_bytes().to_vec(); the line "
              "handed to the parser is only trim_end()-ed; GET formats the stored bytes with from_utf8_lossy and no other transformation",
-    "C24.4": "a frame cannot take the connection down: no function of client.rs reachable from handle_connection contains a panic site on client-supplied text - a str cut at a byte "
+    "C24.4": "a frame cannot take the connection down: no function of client.rs reachable from handle_connection, and no NodeController method reachable from the calls it makes on "
+             "`controller`, contains a panic site on client-supplied text - a str cut at a byte "
              "position not known to be a character boundary (accepted: positions from find/rfind/char_indices/len of the same str, floor_char_boundary, an is_char_boundary guard), "
              "a slice index or range not bounded by the slice's len(), unwrap/expect, panic!/assert!/unreachable!, position methods (split_at, truncate, ...), division by an "
              "unchecked value. A panic in the per-connection task leaves the frame and every later frame of the connection unanswered. The classifier is exercised on every run on "
-             "harness/positive/c24_panic_sites.rs, whose 13 sites must be classified as recorded",
+             "harness/positive/c24_panic_sites.rs, whose 17 sites must be classified as recorded",
 }
 
 POSITIVE = os.path.join(os.path.dirname(os.path.dirname(os.path.abspath(__file__))), "harness", "positive", "c24_panic_sites.rs")
@@ -25,6 +28,7 @@ POSITIVE_EXPECT = [
     ("preview", "str-sliced-at-byte-offset"), ("safe_preview", "ok"), ("after_space", "ok"), ("head", "slice-index-unbounded"), ("head", "slice-range-unbounded"),
     ("bounded", "ok"), ("must", "panics-on-none-or-err:unwrap"), ("must", "panics-on-none-or-err:expect"), ("must", "panic-macro:assert"), ("must", "panic-macro:panic"),
     ("must", "division-by-unchecked-value"), ("cut", "position-method:truncate"), ("cut", "position-method:split_at"),
+    ("pick", "ok"), ("pick", "ok"), ("pick_unguarded", "ok"), ("pick_unguarded", "division-by-unchecked-value"),
 ]
 
 
@@ -37,7 +41,7 @@ def check_no_panic_sites(ctx, f):
     if got != POSITIVE_EXPECT:
         ctx.anchor_missing("C24.4", "the panic-site classifier no longer classifies the positive example as recorded (got %s)" % got)
         return
-    ctx.ok("C24.4", "harness/positive/c24_panic_sites.rs", "the classifier finds the 13 recorded sites of the positive example (10 panic sites, 3 discharged)", FILE, 1)
+    ctx.ok("C24.4", "harness/positive/c24_panic_sites.rs", "the classifier classifies the 17 sites of the positive example as recorded (11 panic sites, 6 discharged)", FILE, 1)
     consts = {it["name"]: True for it in f.items if it["k"] == "const"}
     fns = astpanic.reachable_fns(f, ["handle_connection"])
     n = 0
@@ -55,6 +59,51 @@ def check_no_panic_sites(ctx, f):
             if not bad:
                 ctx.ok("C24.4", "client::" + name, "no undischarged panic site (%d sites looked at)" % len(sites), FILE, it["line"])
     ctx.floor("C24.4", "functions reachable from handle_connection", n, 3)
+    # the controller methods the connection task calls (receiver `controller` in client.rs), followed through
+    # the methods of NodeController defined in controller/mod.rs and controller/internal.rs
+    roots = set()
+    for name in fns:
+        for it in f.fns(name):
+            for x in A.walk(it["body"]):
+                if x.get("k") == "mcall" and A.text(x["recv"]) in ("controller", "controller.clone()"):
+                    roots.add(x["method"])
+    roots.discard("clone")
+    cfiles = A.load(ctx, [CTRL, INTERNAL])
+    m = 0
+    for rel in (CTRL, INTERNAL):
+        cf = cfiles[rel]
+        # reachability over both files: names defined in either
+        names = {it["name"] for r_ in (CTRL, INTERNAL) for it in cfiles[r_].items if it["k"] == "fn"}
+        seen, work = set(), list(roots)
+        while work:
+            x = work.pop()
+            if x in seen or x not in names:
+                continue
+            seen.add(x)
+            for r_ in (CTRL, INTERNAL):
+                for it in cfiles[r_].fns(x):
+                    for nd in A.walk(it["body"]):
+                        if nd.get("k") == "mcall" and A.text(nd["recv"]) == "self":
+                            work.append(nd["method"])
+                        elif nd.get("k") == "call" and nd["f"].get("k") == "path":
+                            work.append(nd["f"]["p"].split("::")[-1])
+        consts = {it["name"]: True for it in cf.items if it["k"] == "const"}
+        for name in sorted(seen):
+            for it in cf.fns(name):
+                m += 1
+                sites = astpanic.classify(it, consts)
+                for kind, node, v, why in sites:
+                    if v == "ok":
+                        ctx.ok("C24.4", "NodeController::" + name, "panic site discharged: " + why, rel, node["line"])
+                    else:
+                        ctx.violate("C24.4", "NodeController::" + name, v, rel, node["line"],
+                                    "%s - reached from the connection task through controller.%s(..): a panic here unwinds the per-connection task, the frame being handled and "
+                                    "every later frame of the connection get no response" % (why, "/".join(sorted(roots))[:80]))
+                if all(v == "ok" for _, _, v, _ in sites):
+                    ctx.ok("C24.4", "NodeController::" + name, "no undischarged panic site (%d sites looked at)" % len(sites), rel, it["line"])
+    if not roots:
+        ctx.anchor_missing("C24.4", "controller methods called from client.rs")
+    ctx.floor("C24.4", "NodeController methods reachable from the connection task", m, 10)
 
 
 def _disjuncts(e):
@@ -223,7 +272,8 @@ def run(ctx):
     else:
         ctx.violate("C24.2", "client::send_response", "response-framing", FILE, sr["line"], "send_response does not write length then bytes")
     check_no_panic_sites(ctx, f)
-    ctx.assume("C24.4 sees panic sites written in client.rs itself; panics inside NodeController methods called from it (controller/mod.rs) are not followed, nor is arithmetic overflow")
+    ctx.assume("C24.4 sees panic sites written in client.rs and in the NodeController methods it calls (controller/mod.rs, controller/internal.rs, followed through self-calls); "
+               "Storage / Metadata / octopii methods called from there are not followed, nor is arithmetic overflow")
     ctx.assume("syntax-tree analysis of distributed-walrus/src/client.rs (the crate cannot be type-checked offline); names are resolved within the file only")
     return {
         "explanation": "enumeration of the acyclic control paths of one iteration of the frame loop over the parsed statement tree (`?`, early returns, continue and match arms included) "
